@@ -21,6 +21,7 @@ class ModbusSim(PeerBase):
         self.silent = False
         self.bad = []                                   # unparsable requests
         self.delay = 0.0                                # answer latency (virtual seconds)
+        self.mbap_len_bug = None                        # None | 'request' (echo the request's length 6) | 'bytecount'
         self.fault = None                               # None | 'silent' | 'garbage' | ('recverr', errno) | 'eof' | ('exc', code)
 
     def faulty(self, s, kind, frame, n):
@@ -88,6 +89,9 @@ class ModbusSim(PeerBase):
         if self.silent:
             return
         resp = self.handle(req, kind)
+        if resp is not None and kind == "tcp" and self.mbap_len_bug and len(resp) > 9 and resp[7] == 3:
+            wrong = 6 if self.mbap_len_bug == "request" else resp[8]
+            resp = resp[0:4] + wrong.to_bytes(2, "big") + resp[6:]
         if resp is not None:
             self.send(s, resp, self.delay, n)
 
